@@ -1306,6 +1306,23 @@ class NP:
         return x._map(c) if isinstance(x, SymArray) else c(x)
 
     def where(self, cond, a, b):
+        # a non-finite constant in one branch (np.inf, np.nan): the result is the other branch, and the condition under
+        # which the non-finite value would be selected is recorded as a definedness condition ("the result is finite")
+        def nonfinite(v):
+            return isinstance(v, float) and (math.isinf(v) or math.isnan(v))
+        if nonfinite(a) or nonfinite(b):
+            if nonfinite(a) and nonfinite(b):
+                raise Unsupported("np.where with two non-finite branches")
+            cnd = asarray(cond) if not _is_scalar(cond) else cond
+            sel_bad = cnd if nonfinite(a) else (cnd._map(lambda v: _bnot(v), "bool") if isinstance(cnd, SymArray) else _bnot(cnd))
+            other = b if nonfinite(a) else a
+            c = ctx()
+            for v in (sel_bad.d if isinstance(sel_bad, SymArray) else [sel_bad]):
+                node = v.node if isinstance(v, SymBool) else T.b_const(bool(v))
+                c.require(T.b_not(node), f"np.where selects the non-finite constant {a if nonfinite(a) else b!r}")
+            if isinstance(cnd, SymArray) and not isinstance(other, SymArray):
+                return SymArray([other] * len(cnd.d), "f8")
+            return other
         cond = asarray(cond)
         if isinstance(cond, SymArray):
             A = a if isinstance(a, SymArray) else None
